@@ -25,6 +25,11 @@ func runC18(r *fw.Run, p *fw.Program) {
 	c18Shared(r, p)
 	c18Stateful(r, p)
 	c18Mapper(r, p)
+	c18EvalCopy(r, p)
+	c18CacheFill(r, p)
+	c18Ambient(r, p)
+	c18TZ(r, p)
+	c18MapOrder(r, p)
 	// per-input jq state: the input file name is reset before each open (shared with C17.inputs)
 	c17InputFilenameResetAs(r, p, "C18.inputstate")
 }
@@ -34,20 +39,154 @@ func runC18(r *fw.Run, p *fw.Program) {
 
 // memRoot follows an address/value back to the memory it designates: a package-level variable,
 // a parameter, a free variable, or nil for fresh/unknown memory. Loads of pointer fields keep the
-// root (memory reachable from the root).
+// root (memory reachable from the root). It is the first element of memRoots.
 func memRoot(v ssa.Value) ssa.Value {
-	return memRootSeen(v, map[ssa.Value]bool{})
+	if rs := memRoots(v); len(rs) > 0 {
+		return rs[0]
+	}
+	return nil
+}
+
+// c18RetRoots: for an fq function and result index, the roots (package-level variables; parameters as
+// c18ParamAlias) of the memory its result may designate. Filled by c18ReturnSummaries (fixed point);
+// empty until then (call results are then fresh/unknown memory as before).
+var c18RetRoots = map[*ssa.Function]map[int][]ssa.Value{}
+var c18RetRootsFor *fw.Program
+
+// c18ReturnSummaries computes c18RetRoots once per loaded program.
+func c18ReturnSummaries(p *fw.Program) {
+	if c18RetRootsFor == p {
+		return
+	}
+	c18RetRootsFor = p
+	c18RetRoots = map[*ssa.Function]map[int][]ssa.Value{}
+	fns := p.FqFunctions()
+	for round := 0; round < 6; round++ {
+		changed := false
+		for _, fn := range fns {
+			if fn.Signature.Results().Len() == 0 {
+				continue
+			}
+			fw.EachInstr(fn, func(ins ssa.Instruction) {
+				ret, ok := ins.(*ssa.Return)
+				if !ok {
+					return
+				}
+				for k, rv := range ret.Results {
+					if !c18MayAlias(rv.Type()) {
+						continue
+					}
+					for _, root := range memRoots(rv) {
+						switch root.(type) {
+						case *ssa.Global, *ssa.Parameter:
+						default:
+							continue
+						}
+						if g, isG := root.(*ssa.Global); isG && isFqGlobal(g) == nil {
+							continue
+						}
+						have := false
+						for _, h := range c18RetRoots[fn][k] {
+							if h == root {
+								have = true
+							}
+						}
+						if !have {
+							if c18RetRoots[fn] == nil {
+								c18RetRoots[fn] = map[int][]ssa.Value{}
+							}
+							c18RetRoots[fn][k] = append(c18RetRoots[fn][k], root)
+							changed = true
+						}
+					}
+				}
+			})
+		}
+		if !changed {
+			break
+		}
+	}
+}
+
+// c18MayAlias: a value of this type can designate memory shared with someone else.
+func c18MayAlias(t types.Type) bool {
+	switch u := t.Underlying().(type) {
+	case *types.Pointer, *types.Map, *types.Slice, *types.Interface, *types.Chan, *types.Signature:
+		return true
+	case *types.Struct:
+		for i := 0; i < u.NumFields(); i++ {
+			if refLike(u.Field(i).Type()) {
+				return true
+			}
+		}
+	}
+	return false
+}
+
+// memRoots: every root the address/value may designate (phi edges, spilled locals, type assertions,
+// comma-ok lookups, range variables, results of fq functions that return shared memory).
+func memRoots(v ssa.Value) []ssa.Value {
+	var out []ssa.Value
+	memRootsSeen(v, map[ssa.Value]bool{}, &out, 0)
+	return out
 }
 
 func memRootSeen(v ssa.Value, seen map[ssa.Value]bool) ssa.Value {
+	var out []ssa.Value
+	memRootsSeen(v, seen, &out, 0)
+	if len(out) > 0 {
+		return out[0]
+	}
+	return nil
+}
+
+func memRootsSeen(v ssa.Value, seen map[ssa.Value]bool, out *[]ssa.Value, depth int) {
+	add := func(r ssa.Value) {
+		for _, h := range *out {
+			if h == r {
+				return
+			}
+		}
+		*out = append(*out, r)
+	}
+	callRoots := func(c *ssa.Call, idx int) {
+		callee := c.Common().StaticCallee()
+		if callee == nil {
+			return
+		}
+		roots := c18RetRoots[callee][idx]
+		if o := callee.Origin(); o != nil && roots == nil {
+			roots = c18RetRoots[o][idx]
+		}
+		for _, root := range roots {
+			switch x := root.(type) {
+			case *ssa.Global:
+				add(x)
+			case *ssa.Parameter:
+				for i, pa := range callee.Params {
+					if pa == x && i < len(c.Common().Args) {
+						memRootsSeen(c.Common().Args[i], seen, out, depth+1)
+					}
+				}
+				if o := callee.Origin(); o != nil {
+					for i, pa := range o.Params {
+						if pa == x && i < len(c.Common().Args) {
+							memRootsSeen(c.Common().Args[i], seen, out, depth+1)
+						}
+					}
+				}
+			}
+		}
+	}
 	for i := 0; i < 40; i++ {
-		if seen[v] {
-			return nil
+		if v == nil || seen[v] || depth > 12 {
+			return
 		}
 		seen[v] = true
 		switch x := v.(type) {
 		case *ssa.Global, *ssa.Parameter, *ssa.FreeVar:
-			return v
+			add(v)
+			return
 		case *ssa.FieldAddr:
 			v = x.X
 		case *ssa.IndexAddr:
@@ -62,25 +201,123 @@ func memRootSeen(v ssa.Value, seen map[ssa.Value]bool) ssa.Value {
 			v = x.X
 		case *ssa.Convert:
 			v = x.X
+		case *ssa.ChangeInterface:
+			v = x.X
+		case *ssa.MakeInterface:
+			if !refLike(x.X.Type()) {
+				return
+			}
+			v = x.X
+		case *ssa.TypeAssert:
+			v = x.X
+		case *ssa.Call:
+			callRoots(x, 0)
+			return
+		case *ssa.Extract:
+			switch t := x.Tuple.(type) {
+			case *ssa.TypeAssert:
+				if x.Index != 0 {
+					return
+				}
+				v = t.X
+			case *ssa.Lookup:
+				if x.Index != 0 {
+					return
+				}
+				v = t.X
+			case *ssa.Next:
+				rg, ok := t.Iter.(*ssa.Range)
+				if !ok || x.Index == 0 {
+					return
+				}
+				v = rg.X
+			case *ssa.Call:
+				callRoots(t, x.Index)
+				return
+			default:
+				return
+			}
 		case *ssa.UnOp:
 			if x.Op != token.MUL {
-				return nil
+				return
+			}
+			// a load of a local cell (spilled / address-taken variable): what was stored into it
+			if al, ok := x.X.(*ssa.Alloc); ok {
+				if al.Referrers() != nil && refLike(x.Type()) {
+					for _, rf := range *al.Referrers() {
+						if st, ok := rf.(*ssa.Store); ok && st.Addr == ssa.Value(al) {
+							memRootsSeen(st.Val, seen, out, depth+1)
+						}
+					}
+				}
+				return
+			}
+			// a reference (pointer, map, slice...) loaded from a field of a local struct copy: the copy shares
+			// what the reference designates with whatever the struct was copied from (ci := *i; m by value)
+			if refLike(x.Type()) {
+				if al, fld := c18LocalFieldBase(x.X); al != nil && al.Referrers() != nil {
+					for _, rf := range *al.Referrers() {
+						switch y := rf.(type) {
+						case *ssa.Store:
+							if y.Addr == ssa.Value(al) {
+								memRootsSeen(y.Val, seen, out, depth+1)
+							}
+						case *ssa.FieldAddr:
+							// the field assigned on its own
+							if fld >= 0 && y.Field == fld && y.X == ssa.Value(al) && y.Referrers() != nil {
+								for _, r2 := range *y.Referrers() {
+									if st, ok := r2.(*ssa.Store); ok && st.Addr == ssa.Value(y) {
+										memRootsSeen(st.Val, seen, out, depth+1)
+									}
+								}
+							}
+						}
+					}
+					return
+				}
 			}
 			v = x.X
 		case *ssa.Lookup:
 			v = x.X
 		case *ssa.Phi:
 			for _, e := range x.Edges {
-				if r := memRootSeen(e, seen); r != nil {
-					return r
-				}
+				memRootsSeen(e, seen, out, depth+1)
 			}
-			return nil
+			return
 		default:
-			return nil
+			return
 		}
 	}
-	return nil
+}
+
+// c18LocalFieldBase: addr is a field (first level) of a local struct variable; returns the variable and field.
+func c18LocalFieldBase(addr ssa.Value) (*ssa.Alloc, int) {
+	fld := -1
+	for i := 0; i < 6; i++ {
+		switch x := addr.(type) {
+		case *ssa.FieldAddr:
+			fld = x.Field
+			addr = x.X
+		case *ssa.Alloc:
+			if _, isStruct := x.Type().(*types.Pointer).Elem().Underlying().(*types.Struct); isStruct && fld >= 0 {
+				return x, fld
+			}
+			return nil, -1
+		default:
+			return nil, -1
+		}
+	}
+	return nil, -1
+}
+
+// c18HasRoot: root is one of the roots of v.
+func c18HasRoot(v ssa.Value, root ssa.Value) bool {
+	for _, r := range memRoots(v) {
+		if r == root {
+			return true
+		}
+	}
+	return false
 }
 
 func isFqGlobal(v ssa.Value) *ssa.Global {
@@ -103,7 +340,7 @@ func refLike(t types.Type) bool {
 var stdMutators = map[string]int{
 	"sort.Slice": 0, "sort.SliceStable": 0, "sort.Sort": 0, "sort.Stable": 0, "sort.Strings": 0, "sort.Ints": 0, "sort.Float64s": 0,
 	"slices.Sort": 0, "slices.SortFunc": 0, "slices.SortStableFunc": 0, "slices.Reverse": 0,
-	"math/rand.Shuffle": -1,
+	"math/rand.Shuffle":       -1,
 	"encoding/json.Unmarshal": 1, "encoding/binary.Read": 2,
 }
 
@@ -176,47 +413,59 @@ func writesIn(fn *ssa.Function, summ map[*ssa.Function]map[int]bool) []memWrite 
 // mutationSummaries: for each fq function, the indices of parameters (and 1000+k for free
 // variables) through which it may write. Fixed point over static calls and closures.
 func mutationSummaries(p *fw.Program) map[*ssa.Function]map[int]bool {
-	return mutationSummariesWith(p, memRoot)
+	c18ReturnSummaries(p)
+	return mutationSummariesMulti(p, memRoots)
 }
 
 // mutationSummariesWith is mutationSummaries with a caller-chosen notion of "the memory an address designates".
 func mutationSummariesWith(p *fw.Program, memRoot func(ssa.Value) ssa.Value) map[*ssa.Function]map[int]bool {
+	return mutationSummariesMulti(p, func(v ssa.Value) []ssa.Value {
+		if r := memRoot(v); r != nil {
+			return []ssa.Value{r}
+		}
+		return nil
+	})
+}
+
+func mutationSummariesMulti(p *fw.Program, memRoots func(ssa.Value) []ssa.Value) map[*ssa.Function]map[int]bool {
 	summ := map[*ssa.Function]map[int]bool{}
 	fns := p.FqFunctions()
 	for changed := true; changed; {
 		changed = false
 		for _, fn := range fns {
 			for _, w := range writesIn(fn, summ) {
-				root := memRoot(w.target)
-				idx := -1
-				switch x := root.(type) {
-				case *ssa.Parameter:
-					for i, pa := range fn.Params {
-						if pa == x {
-							idx = i
+				for _, root := range memRoots(w.target) {
+					idx := -1
+					switch x := root.(type) {
+					case *ssa.Parameter:
+						for i, pa := range fn.Params {
+							if pa == x {
+								idx = i
+							}
+						}
+						// a by-value parameter is written only in its local copy (stores go to the spilled cell);
+						// a write rooted at the parameter value itself went through a reference it holds (map,
+						// slice or pointer field), which the caller's copy shares - unless it holds none
+						if idx >= 0 && !refLike(x.Type()) && !c18MayAlias(x.Type()) {
+							idx = -1
+						}
+					case *ssa.FreeVar:
+						for i, fv := range fn.FreeVars {
+							if fv == x {
+								idx = 1000 + i
+							}
 						}
 					}
-					// a store directly to the parameter's own (by-value) struct fields is local
-					if idx >= 0 && !refLike(x.Type()) {
-						idx = -1
+					if idx < 0 {
+						continue
 					}
-					// a Store whose address IS derived from a by-value param cannot happen in SSA (params are values)
-				case *ssa.FreeVar:
-					for i, fv := range fn.FreeVars {
-						if fv == x {
-							idx = 1000 + i
-						}
+					if summ[fn] == nil {
+						summ[fn] = map[int]bool{}
 					}
-				}
-				if idx < 0 {
-					continue
-				}
-				if summ[fn] == nil {
-					summ[fn] = map[int]bool{}
-				}
-				if !summ[fn][idx] {
-					summ[fn][idx] = true
-					changed = true
+					if !summ[fn][idx] {
+						summ[fn][idx] = true
+						changed = true
+					}
 				}
 			}
 		}
@@ -235,10 +484,12 @@ func isInitContext(fn *ssa.Function) bool {
 
 // globalsExceptions: (function|global) pairs that write package-level state outside init, each
 // recognised structurally where possible; this table is for the remainder.
-var globalsExceptions = map[string]string{}
+var globalsExceptions = map[string]string{
+	"format/bitcoin.decodeBitcoinTranscation$1$1|&format/bitcoin.txIDCoinbaseBytes": "the all-zero coinbase txid is handed to a scalar.RawBytesMap as comparison key; Map* methods of mappers never write their table (C18.mapper) and the slice is not otherwise reachable",
+}
 
 func c18Globals(r *fw.Run, p *fw.Program) {
-	ru := r.Rule("C18.globals", "no package-level variable of the fq module is written (store, map update, delete, in-place sort/copy, or through a mutating parameter/closure) outside package initialisation, except under sync.Once / the owner's mutex / init-only registrars", 100)
+	ru := r.Rule("C18.globals", "no package-level variable of the fq module is written (store, map update, delete, in-place sort/copy, or through a mutating parameter/closure) outside package initialisation, except under sync.Once (of a shared Once) / the owner's mutex / init-only registrars; aliases are followed through comma-ok lookups, range variables, type assertions, spilled locals, by-value struct copies and fq functions returning shared memory; nor is the address of such a variable parked in an object outside initialisation", 100)
 	summ := mutationSummaries(p)
 	nGlobals := 0
 	for _, pk := range p.Roots {
@@ -268,7 +519,13 @@ func c18Globals(r *fw.Run, p *fw.Program) {
 		ws := writesIn(fn, summ)
 		ord := map[string]int{}
 		for _, w := range ws {
-			g := isFqGlobal(memRoot(w.target))
+			var g *ssa.Global
+			for _, root := range memRoots(w.target) {
+				if gg := isFqGlobal(root); gg != nil {
+					g = gg
+					break
+				}
+			}
 			if g == nil {
 				continue
 			}
@@ -298,7 +555,88 @@ func c18Globals(r *fw.Run, p *fw.Program) {
 			}
 		}
 	}
+	// the address of a package-level variable (or of part of it) must not be parked in an object outside
+	// initialisation: whoever holds the object later writes the variable without this scan seeing a global
+	// (a decoder state defaulting its scratch buffer to a package-level one, for instance)
+	for _, fn := range p.FqFunctions() {
+		if fn.TypeParams().Len() > 0 && len(fn.TypeArgs()) == 0 {
+			continue
+		}
+		if isInitContext(fw.Top(fn)) || initOnly[fw.Top(fn)] {
+			continue
+		}
+		ord := map[string]int{}
+		fw.EachInstr(fn, func(ins ssa.Instruction) {
+			st, ok := ins.(*ssa.Store)
+			if !ok {
+				return
+			}
+			if a, isA := st.Addr.(*ssa.Alloc); isA && !a.Heap {
+				return
+			}
+			g := c18AddrOfGlobal(st.Val)
+			if g == nil || isFqGlobal(g) == nil || !c18WritableThrough(st.Val.Type()) {
+				return
+			}
+			gname := strings.TrimPrefix(g.Pkg.Pkg.Path(), fw.Mod+"/") + "." + g.Name()
+			base := fw.ShortFn(fn) + "|&" + gname
+			ord[base]++
+			key := fmt.Sprintf("%s|%d", base, ord[base])
+			if reason, ok := globalsExceptions[base]; ok {
+				ru.Except(key, p.Rel(st.Pos()), reason)
+				return
+			}
+			ru.Fail(key, p.Rel(st.Pos()), fmt.Sprintf("the address of package-level variable %s is stored into an object outside package initialisation (%s): every decode holding such an object reads and writes the same memory", gname, fw.ShortFn(fn)))
+		})
+	}
 	ru.Ok("scan", "", fmt.Sprintf("%d package-level variables, %d writes to them examined, %d mutating (function,parameter) summaries", nGlobals, checked, nPairs))
+}
+
+// c18AddrOfGlobal: v is the address of a package-level variable or of a part of it (field, element, slice of
+// an array) - no load in between, so writing through v writes the variable itself.
+func c18AddrOfGlobal(v ssa.Value) *ssa.Global {
+	for i := 0; i < 10; i++ {
+		switch x := v.(type) {
+		case *ssa.Global:
+			return x
+		case *ssa.FieldAddr:
+			v = x.X
+		case *ssa.IndexAddr:
+			v = x.X
+		case *ssa.Slice:
+			v = x.X
+		case *ssa.ChangeType:
+			v = x.X
+		case *ssa.Convert:
+			v = x.X
+		case *ssa.MakeInterface:
+			v = x.X
+		default:
+			return nil
+		}
+	}
+	return nil
+}
+
+// c18WritableThrough: holding a value of this type allows writing the memory it designates.
+func c18WritableThrough(t types.Type) bool {
+	switch u := t.Underlying().(type) {
+	case *types.Pointer:
+		// a pointer to a type without exported or unexported mutable state cannot be told apart here; sync
+		// primitives and read-only descriptors are shared on purpose
+		if n, ok := u.Elem().(*types.Named); ok && n.Obj().Pkg() != nil {
+			switch {
+			case n.Obj().Pkg().Path() == "sync":
+				return false
+			case n.Obj().Pkg().Path() == fw.Mod+"/pkg/decode" && (n.Obj().Name() == "Group" || n.Obj().Name() == "Format" || n.Obj().Name() == "Dependency"):
+				return false // format descriptors: every write to them, through any holder, is judged by C18.shared
+			}
+		}
+		return true
+	case *types.Slice, *types.Interface:
+		return true
+	}
+	return false
 }
 
 // initOnlyFunctions: fq functions all of whose (static) callers are package init functions or
@@ -359,16 +697,30 @@ func initOnlyFunctions(p *fw.Program) map[*ssa.Function]bool {
 	return res
 }
 
-// insideOnceDo: fn is a closure passed to (*sync.Once).Do.
+// insideOnceDo: fn is a closure passed to (*sync.Once).Do of a Once that outlives the call: a
+// package-level variable or a field of an object reached through a parameter / free variable / global.
+// A Once that is a local variable (or a by-value copy of the shared one) guards nothing.
 func insideOnceDo(fn *ssa.Function) bool {
 	par := fn.Parent()
 	if par == nil {
 		return false
 	}
+	sharedOnce := func(c ssa.CallInstruction) bool {
+		if len(c.Common().Args) != 2 {
+			return false
+		}
+		for _, root := range memRoots(c.Common().Args[0]) {
+			switch root.(type) {
+			case *ssa.Global, *ssa.Parameter, *ssa.FreeVar:
+				return true
+			}
+		}
+		return false
+	}
 	found := false
 	fw.EachInstr(par, func(ins ssa.Instruction) {
 		if c, ok := ins.(ssa.CallInstruction); ok {
-			if cal := c.Common().StaticCallee(); cal != nil && cal.String() == "(*sync.Once).Do" && len(c.Common().Args) == 2 && c.Common().Args[1] == ssa.Value(fn) {
+			if cal := c.Common().StaticCallee(); cal != nil && cal.String() == "(*sync.Once).Do" && len(c.Common().Args) == 2 && c.Common().Args[1] == ssa.Value(fn) && sharedOnce(c) {
 				found = true
 			}
 		}
@@ -378,7 +730,7 @@ func insideOnceDo(fn *ssa.Function) bool {
 		}
 		for _, ref := range *mc.Referrers() {
 			if c, ok := ref.(ssa.CallInstruction); ok {
-				if cal := c.Common().StaticCallee(); cal != nil && cal.String() == "(*sync.Once).Do" {
+				if cal := c.Common().StaticCallee(); cal != nil && cal.String() == "(*sync.Once).Do" && sharedOnce(c) {
 					found = true
 				}
 			}
@@ -400,7 +752,7 @@ func calleeLocksReceiver(ins ssa.Instruction, summ map[*ssa.Function]map[int]boo
 	}
 	n := 0
 	for _, w := range writesIn(callee, summ) {
-		if p, ok := memRoot(w.target).(*ssa.Parameter); ok && len(callee.Params) > 0 && p == callee.Params[0] {
+		if len(callee.Params) > 0 && c18HasRoot(w.target, callee.Params[0]) {
 			n++
 			if !holdsOwnMutex(w.ins) {
 				return false
@@ -436,7 +788,7 @@ func holdsOwnMutex(ins ssa.Instruction) bool {
 // C18.once: registry resolution
 
 func c18Once(r *fw.Run, p *fw.Program) {
-	ru := r.Rule("C18.once", "Registry group resolution runs under formatResolveOnce; formatResolved is written only there; registration panics once resolved; every reader of groups resolves first", 5)
+	ru := r.Rule("C18.once", "Registry group resolution runs under formatResolveOnce; formatResolved is written only there; registration panics once resolved, before it writes anything; every function that reads or hands out groups calls resolveGroups() first; the Once is the registry's own (not a local copy)", 8)
 	reg := p.NamedType("pkg/interp", "Registry")
 	if reg == nil {
 		ru.Undecided("anchor", "", "interp.Registry not found")
@@ -521,6 +873,35 @@ func c18Once(r *fw.Run, p *fw.Program) {
 			}
 		})
 		ru.Check(ok, "Format:refuse-after-resolve", p.Rel(f.Pos()), "panics when already resolved", "Registry.Format no longer refuses registration after groups were resolved (Formats slices would change under running decodes)")
+		// ... and it refuses before it touches anything: every write of the method runs on the not-resolved side of that test
+		late := ""
+		nw := 0
+		fw.EachInstr(f, func(ins ssa.Instruction) {
+			switch x := ins.(type) {
+			case *ssa.Store:
+				if _, isA := x.Addr.(*ssa.Alloc); isA {
+					return
+				}
+			case *ssa.MapUpdate:
+			default:
+				return
+			}
+			nw++
+			guarded := false
+			for _, g := range fw.Guards(ins.Block()) {
+				if u, isU := g.Cond.(*ssa.UnOp); isU && !g.True {
+					if fa, isFA := u.X.(*ssa.FieldAddr); isFA && fieldNameOf(fa.X.Type(), fa.Field) == "formatResolved" {
+						guarded = true
+					}
+				}
+			}
+			if !guarded && late == "" {
+				late = p.Rel(ins.Pos())
+			}
+		})
+		if ok {
+			ru.Check(late == "" && nw > 0, "Format:refuse-before-write", p.Rel(f.Pos()), fmt.Sprintf("all %d writes of Registry.Format run after the already-resolved test", nw), "Registry.Format writes groups / Formats slices at "+late+" before (or without) testing that the registry is not resolved yet: the panic comes after running decodes already saw the change")
+		}
 	}
 	// readers of r.groups (Lookup on the groups map, or ranging it) call resolveGroups first, except Format/resolveGroups themselves
 	rg := p.Fn("(*pkg/interp.Registry).resolveGroups")
@@ -529,35 +910,44 @@ func c18Once(r *fw.Run, p *fw.Program) {
 		return
 	}
 	for _, fn := range p.FqFunctions() {
-		if pkgRel(fn) != "pkg/interp" || fn.Parent() != nil || fn == rg || fn.Name() == "Format" || fn.Name() == "NewRegistry" {
+		if pkgRel(fn) != "pkg/interp" || fn == rg || fw.Top(fn) == rg || fn.Name() == "Format" && fn.Parent() == nil || fn.Name() == "NewRegistry" {
 			continue
 		}
+		// any load of the groups field (lookup, range, or handing the map out) is a read of resolved state
 		var firstRead ssa.Instruction
 		fw.EachInstr(fn, func(ins ssa.Instruction) {
 			if firstRead != nil {
 				return
 			}
-			switch x := ins.(type) {
-			case *ssa.Lookup:
-				if isRegistryGroups(x.X) {
-					firstRead = ins
-				}
-			case *ssa.Range:
-				if isRegistryGroups(x.X) {
-					firstRead = ins
-				}
+			if v, ok := ins.(ssa.Value); ok && isRegistryGroups(v) {
+				firstRead = ins
 			}
 		})
 		if firstRead == nil {
 			continue
 		}
+		// a read inside a closure is anchored at the creation of the closure in its parent
+		anchor, host := firstRead, fn
+		for host.Parent() != nil {
+			par := host.Parent()
+			var mk ssa.Instruction
+			fw.EachInstr(par, func(ins ssa.Instruction) {
+				if mc, ok := ins.(*ssa.MakeClosure); ok && mc.Fn == ssa.Value(host) && mk == nil {
+					mk = ins
+				}
+			})
+			if mk == nil {
+				break
+			}
+			anchor, host = mk, par
+		}
 		ok := false
-		for _, c := range fw.CallsIn(fn) {
-			if c.Common().StaticCallee() == rg && precedesOnAllPaths(c, firstRead) {
+		for _, c := range fw.CallsIn(host) {
+			if c.Common().StaticCallee() == rg && precedesOnAllPaths(c, anchor) {
 				ok = true
 			}
 		}
-		ru.Check(ok, "reader:"+fw.ShortFn(fn), p.Rel(firstRead.Pos()), "resolveGroups() precedes the read of groups", "Registry.groups is read without calling resolveGroups() first")
+		ru.Check(ok, "reader:"+fw.ShortFn(fn), p.Rel(firstRead.Pos()), "resolveGroups() precedes the read of groups", "Registry.groups is read (or handed out) without calling resolveGroups() first: the caller sees unresolved, unsorted groups unless some other call happened to resolve them (result depends on process history; races with the resolving goroutine)")
 	}
 }
 
@@ -653,48 +1043,43 @@ func c18Eval(r *fw.Run, p *fw.Program) {
 	if fn == nil {
 		return
 	}
-	// an Alloc of type Interp that receives a load through a *Interp (ci := *i)
-	var cp *ssa.Alloc
-	fw.EachInstr(fn, func(ins ssa.Instruction) {
-		st, ok := ins.(*ssa.Store)
-		if !ok {
-			return
-		}
-		a, ok := st.Addr.(*ssa.Alloc)
-		if !ok || shortType(a.Type()) != "*pkg/interp.Interp" {
-			return
-		}
-		if u, ok := st.Val.(*ssa.UnOp); ok && u.Op == token.MUL && shortType(u.X.Type()) == "*pkg/interp.Interp" {
-			cp = a
-		}
-	})
-	if !ru.Check(cp != nil, "copy", p.Rel(fn.Pos()), "ci := *i", "Eval no longer works on a copy of the interpreter") {
+	// an Alloc of type Interp that receives a load through a *Interp (ci := *i), in Eval itself or in a helper
+	// that returns the address of its copy
+	cpv, helper, hcp := c18EvalCopyOf(fn)
+	if !ru.Check(cpv != nil, "copy", p.Rel(fn.Pos()), "ci := *i", "Eval no longer works on a copy of the interpreter") {
 		return
 	}
 	// a fresh map is stored into an includeSeen field of a local EvalInstance, and that instance is stored
 	// into the EvalInstance field of the copy (not of the receiver)
 	freshMap := false
 	intoCopy := false
-	fw.EachInstr(fn, func(ins ssa.Instruction) {
-		st, ok := ins.(*ssa.Store)
-		if !ok {
-			return
-		}
-		fa, ok := st.Addr.(*ssa.FieldAddr)
-		if !ok {
-			return
-		}
-		switch fieldNameOf(fa.X.Type(), fa.Field) {
-		case "includeSeen":
-			if _, ok := st.Val.(*ssa.MakeMap); ok {
-				freshMap = true
+	scan := []*ssa.Function{fn}
+	if helper != nil {
+		scan = append(scan, helper)
+	}
+	for _, f := range scan {
+		fw.EachInstr(f, func(ins ssa.Instruction) {
+			st, ok := ins.(*ssa.Store)
+			if !ok {
+				return
 			}
-		case "EvalInstance":
-			if localPointsTo(fa.X, 0) == ssa.Value(cp) {
-				intoCopy = true
+			fa, ok := st.Addr.(*ssa.FieldAddr)
+			if !ok {
+				return
 			}
-		}
-	})
+			switch fieldNameOf(fa.X.Type(), fa.Field) {
+			case "includeSeen":
+				if _, ok := st.Val.(*ssa.MakeMap); ok {
+					freshMap = true
+				}
+			case "EvalInstance":
+				tgt := localPointsTo(fa.X, 0)
+				if tgt == cpv || hcp != nil && tgt == ssa.Value(hcp) {
+					intoCopy = true
+				}
+			}
+		})
+	}
 	ru.Check(freshMap && intoCopy, "fresh-instance", p.Rel(fn.Pos()), "new EvalInstance with a fresh includeSeen map stored into the copy", "the copied interpreter does not get a fresh EvalInstance/includeSeen (evaluations share include state), or it is installed into the receiver instead of the copy")
 	// the compiled code and iterator use the copy: the closures created after the copy capture ni/ci, not i — checked indirectly:
 	// gojq.WithFunction callbacks are built from ni (every call of a Registry env function passes the copy)
@@ -752,7 +1137,7 @@ func memRootAlloc(v ssa.Value) *ssa.Alloc {
 var bufUseExceptions = map[string]string{}
 
 func c18Buf(r *fw.Run, p *fw.Program) {
-	ru := r.Rule("C18.buf", "slices returned by D.SharedReadBuf/TryBits/Bits alias the per-decode scratch buffer: they are only read, converted or reversed in place immediately, never stored into a Value/scalar/struct field, returned from a decoder helper that keeps them, or captured", 5)
+	ru := r.Rule("C18.buf", "slices returned by D.SharedReadBuf/TryBits/Bits alias the per-decode scratch buffer: they are only read, converted or reversed in place immediately, never stored into a Value/scalar/struct field, returned from a decoder helper that keeps them, or captured - and never read again after another read helper that goes through the same scratch buffer ran", 5)
 	srcs := map[string]bool{"SharedReadBuf": true, "TryBits": true, "Bits": true}
 	for _, fn := range p.FqFunctions() {
 		ord := 0
@@ -784,8 +1169,10 @@ func c18Buf(r *fw.Run, p *fw.Program) {
 				} else {
 					ru.Fail(key, p.Rel(c.Pos()), "slice aliasing the shared read buffer "+esc+": the next read overwrites it")
 				}
+			} else if stale := c18StaleUse(p, fn, c, v); stale != "" {
+				ru.Fail(key, p.Rel(c.Pos()), "slice aliasing the shared read buffer "+stale+": its bytes now belong to the later read")
 			} else {
-				ru.Ok(key, p.Rel(c.Pos()), "used immediately (read/convert/copy) only")
+				ru.Ok(key, p.Rel(c.Pos()), "used immediately (read/convert/copy) only, dead before the next read through the scratch buffer")
 			}
 		}
 	}
@@ -887,12 +1274,12 @@ func sliceEscapes(v ssa.Value, fn *ssa.Function, depth int) string {
 }
 
 var readOnlyConsumers = map[string]bool{
-	fw.Mod + "/pkg/bitio.Read64":      true,
-	fw.Mod + "/pkg/bitio.Write64":     true,
-	fw.Mod + "/pkg/bitio.ReadFull":    true,
-	fw.Mod + "/pkg/bitio.ReadAtFull":  true,
+	fw.Mod + "/pkg/bitio.Read64":        true,
+	fw.Mod + "/pkg/bitio.Write64":       true,
+	fw.Mod + "/pkg/bitio.ReadFull":      true,
+	fw.Mod + "/pkg/bitio.ReadAtFull":    true,
 	fw.Mod + "/pkg/decode.ReverseBytes": true,
-	"(*math/big.Int).SetBytes":         true,
-	"io.ReadFull":                      true,
-	"io.CopyBuffer":                    true, // scratch buffer used only during the call
+	"(*math/big.Int).SetBytes":          true,
+	"io.ReadFull":                       true,
+	"io.CopyBuffer":                     true, // scratch buffer used only during the call
 }
